@@ -18,6 +18,7 @@ import (
 	"strings"
 	"sync"
 	"sync/atomic"
+	"syscall"
 	"time"
 
 	"github.com/klev-dev/klevdb"
@@ -291,6 +292,29 @@ func runScheduled(f func()) string {
 // flag; starting the next execution before they are gone would leave them
 // spinning for ever (the flag is reset) or let their deferred unlocks touch
 // the next execution's scheduler state.
+// NeedRestart is set when an execution left a goroutine behind that can never finish: the
+// worker process reports its result and is then replaced.
+var NeedRestart bool
+
+// joinAll waits for all harness threads to exit; false if they have not after 20 s of CPU time
+// of this process (the waiting loop itself burns CPU, so this cannot be a matter of load).
+func joinAll(exited *int32, n int) bool {
+	var ru0 syscall.Rusage
+	_ = syscall.Getrusage(syscall.RUSAGE_SELF, &ru0)
+	start := time.Duration(ru0.Utime.Nano() + ru0.Stime.Nano())
+	for spins := 0; atomic.LoadInt32(exited) < int32(n); spins++ {
+		runtime.Gosched()
+		if spins&1023 == 1023 {
+			var ru syscall.Rusage
+			_ = syscall.Getrusage(syscall.RUSAGE_SELF, &ru)
+			if time.Duration(ru.Utime.Nano()+ru.Stime.Nano())-start > 20*time.Second {
+				return false
+			}
+		}
+	}
+	return true
+}
+
 func joinAborted(exited *int32, n int) {
 	start := time.Now()
 	for atomic.LoadInt32(exited) < int32(n) && time.Since(start) < 5*time.Second {
@@ -473,7 +497,14 @@ func Exec(p Program, choices []int, free bool) (*Execution, error) {
 			joinAborted(&exited, len(p.Threads))
 			return x, nil
 		}
-		wg.Wait()
+		if !joinAll(&exited, len(p.Threads)) {
+			// the scheduler says every thread has finished, yet one never returns: it is blocked
+			// on something the scheduler does not see (a real channel or lock)
+			x.Hung = true
+			NeedRestart = true
+			vsched.Abort()
+			return x, nil
+		}
 	}
 	// final sequential observation and Close. Under the scheduler they run as a
 	// one-thread program: if they wait for something nobody will provide (a leaked
@@ -963,6 +994,11 @@ func execNotify(p Program, choices []int) (*Execution, error) {
 		joinAborted(&exited, len(p.Threads))
 		return x, nil
 	}
-	wg.Wait()
+	if !joinAll(&exited, len(p.Threads)) {
+		x.Hung = true
+		NeedRestart = true
+		vsched.Abort()
+		return x, nil
+	}
 	return x, nil
 }
